@@ -244,7 +244,7 @@ func cmdCheck(args []string) {
 			continue // unknown: inconclusive cover check (reported in evidence)
 		}
 		if f := isKnown(o.Name); f != nil {
-			line := fmt.Sprintf("KNOWN-FINDING: property=%s %s", prop, f.Text)
+			line := fmt.Sprintf("KNOWN-FINDING: %s", f.Text)
 			res.Known = append(res.Known, line)
 			fmt.Println(line)
 			continue
@@ -414,6 +414,10 @@ func writeEvidence(p *Program, res *CheckResult, dir string, wall float64, timeo
 		UsesContracts []string `json:"callee_contracts_used,omitempty"`
 		OutOfSubset   []string `json:"out_of_subset,omitempty"`
 	}
+	undecidedSet0 := map[string]bool{}
+	for _, o := range res.Undecided {
+		undecidedSet0[o.Name] = true
+	}
 	var fns []fnEv
 	trusted := map[string]bool{}
 	assumptions := map[string]bool{}
@@ -421,6 +425,9 @@ func writeEvidence(p *Program, res *CheckResult, dir string, wall float64, timeo
 		fe := fnEv{Name: r.Name, Pos: r.Pos, SSASha: r.SSAHash, Inlined: r.Inlined, UsesContracts: r.Used, OutOfSubset: r.OOS}
 		for _, o := range r.Obls {
 			if o.Kind == "cover" {
+				continue
+			}
+			if o.Status != "discharged" && undecidedSet0[o.Name] {
 				continue
 			}
 			fe.Obligations++
@@ -436,6 +443,10 @@ func writeEvidence(p *Program, res *CheckResult, dir string, wall float64, timeo
 			assumptions[r.Name+": "+a] = true
 		}
 	}
+	undecidedSet := map[string]bool{}
+	for _, o := range res.Undecided {
+		undecidedSet[o.Name] = true
+	}
 	byBackend := map[string]map[string]any{}
 	total, disch, covers, coversOK := 0, 0, 0, 0
 	var samples []any
@@ -446,6 +457,9 @@ func writeEvidence(p *Program, res *CheckResult, dir string, wall float64, timeo
 				coversOK++
 			}
 			continue
+		}
+		if o.Status != "discharged" && undecidedSet[o.Name] {
+			continue // attempted, undecided: reported separately, never counted as an obligation of the claim
 		}
 		total++
 		if o.Status == "discharged" {
